@@ -19,3 +19,21 @@ def zmax(a, b):
 
 def zabs(x):
     return z3.If(x >= 0, x, -x)
+
+
+class Abs:
+    """access to a list view by ABSOLUTE index of its base arrays: quantifying over absolute indices keeps
+    e-matching patterns free of arithmetic (arr[T] instead of arr[off + k])"""
+    def __init__(self, P):
+        self.P = P
+        self.lo = P.off
+        self.hi = P.off + P.len
+
+    def __getitem__(self, T):
+        return self.P[T - self.P.off]
+
+    def raw(self, T):
+        return self.P.raw(T - self.P.off)
+
+    def inside(self, T):
+        return z3.And(self.lo <= T, T < self.hi)
